@@ -2297,8 +2297,25 @@ fn family_messages(ctx: &mut Ctx, env: &MsgEnv) {
                 let step = cuts.len().div_ceil(24);
                 cuts = cuts.into_iter().step_by(step).collect();
             }
-            for cut in cuts {
-                let w = Arc::new(wire[..cut].to_vec());
+            // damaged variants: every cut, plus the complete message followed by trailing data
+            // (a second literal packet, a stray signature-less marker run, raw garbage): whether such
+            // an input is an error must not depend on how it is consumed
+            let mut variants: Vec<(usize, Vec<u8>)> = cuts.iter().map(|c| (*c, wire[..*c].to_vec())).collect();
+            for (ti, tail) in [
+                vec![0xCBu8, 0x07, b'b', 0, 0, 0, 0, 0, b'x'],
+                vec![0xFFu8; 5],
+                vec![0xC2u8, 0x03, 4, 0, 1],
+                vec![0x00u8],
+            ]
+            .iter()
+            .enumerate()
+            {
+                let mut w = wire.clone();
+                w.extend_from_slice(tail);
+                variants.push((wl + 1 + ti, w));
+            }
+            for (cut, wbytes) in variants {
+                let w = Arc::new(wbytes);
                 let q0 = guarded(ctx, "C09/reader-truncated/sched", || json!({"cfg": cfg.name, "cut": cut}), || run_read(env, cfg, &w, false, &Sched::All, &Consume::ToEnd, None).0);
                 ctx.eval();
                 let Some(q0) = q0 else { continue };
